@@ -220,8 +220,15 @@ impl<'a> YamlEmitter<'a> {
             Yaml::Sequence(ref v) => self.emit_sequence(v),
             Yaml::Mapping(ref h) => self.emit_mapping(h),
             Yaml::Value(Scalar::String(ref v)) => {
+                // The literal style is only used where it gives the string back unchanged: inside a
+                // collection (the content of a top-level block would start in column 0), with a
+                // first line that lets the indentation be detected, and without trailing empty
+                // lines (which clipping would drop).
                 if self.multiline_strings
+                    && self.level >= 0
                     && v.contains('\n')
+                    && !v.starts_with([' ', '\t', '\n'])
+                    && !v.ends_with("\n\n")
                     && char_traits::is_valid_literal_block_scalar(v)
                 {
                     self.emit_literal_block(v)?;
@@ -339,7 +346,11 @@ impl<'a> YamlEmitter<'a> {
                     write!(self.writer, ":")?;
                     self.emit_val(true, v)?;
                 } else {
-                    self.emit_node(k)?;
+                    // An implicit key has to fit on one line: no literal style for it.
+                    let multiline_strings = std::mem::replace(&mut self.multiline_strings, false);
+                    let emitted = self.emit_node(k);
+                    self.multiline_strings = multiline_strings;
+                    emitted?;
                     write!(self.writer, ":")?;
                     self.emit_val(false, v)?;
                 }
